@@ -6,12 +6,20 @@ NSHARD = 16
 
 
 def cbytes(b):
-    """Coq term of type list N for a byte string (coq/C14/Hex.v hb)"""
+    """Coq term of type list N for a byte string (coq/C14/Hex.v hb).  No list literal is longer than
+    400 elements (Coq's parser overflows its stack on very long literals)."""
     b = bytes(b)
     if len(b) <= 2:
         return "[" + ";".join(str(x) for x in b) + "]"
-    chunks = [b[i:i + 7] for i in range(0, len(b), 7)]
-    return "(hb %d [%s]%%uint63)" % (len(chunks[-1]), ";".join("0x" + ch.hex() for ch in chunks))
+    parts = []
+    step = 7 * 400
+    for off in range(0, len(b), step):
+        seg = b[off:off + step]
+        chunks = [seg[i:i + 7] for i in range(0, len(seg), 7)]
+        parts.append("hb %d [%s]%%uint63" % (len(chunks[-1]), ";".join("0x" + ch.hex() for ch in chunks)))
+    if len(parts) == 1:
+        return "(" + parts[0] + ")"
+    return "(" + " ++ ".join(parts) + ")%list"
 
 
 def cn(v):
